@@ -5,6 +5,7 @@ from .common import finish, load_known, run_b_job, run_jobs
 
 PID = 'C04'
 S = 'models.servlet_scn:ServletScn'
+E = 'models.ensemble_scn:EnsembleScn'
 
 
 def configs(tier):
@@ -12,9 +13,18 @@ def configs(tier):
         dict(stages=[1], init_fail=False, work_fail=True, pre_fail=True, callers=2),
         dict(stages=[1, 1], init_fail=False, work_fail=True, callers=2, validate_all=True),
         dict(stages=[2], init_fail=False, work_fail=True, callers=2),
+        # ensemble rules (fail_fast / all failed / partial lists) and switch routing: real EnsembleServlet / SwitchServlet
+        # threads between member servlets that follow the servlet contract
+        (E, dict(kind='ensemble', members=2, requests=1, fail_fast=True, member_fail=True, upstream_fail=True)),
+        (E, dict(kind='ensemble', members=2, requests=1, fail_fast=False, member_fail=True)),
+        (E, dict(kind='switch', members=2, requests=2, member_fail=True, upstream_fail=True)),
     ]
     if tier == 'thorough':
         cs += [
+            (E, dict(kind='ensemble', members=2, requests=2, fail_fast=True, member_fail=True)),
+            (E, dict(kind='ensemble', members=2, requests=2, fail_fast=False, member_fail=True, upstream_fail=True)),
+            (E, dict(kind='ensemble', members=3, requests=1, fail_fast=True, member_fail=True)),
+            (E, dict(kind='ensemble', members=3, requests=1, fail_fast=False, member_fail=True)),
             dict(stages=[1, 1], init_fail=False, work_fail=True, pre_fail=True, callers=2),
             dict(stages=[2, 1], init_fail=False, work_fail=True, callers=2),
             dict(stages=[1], init_fail=False, work_fail=True, pre_fail=True, callers=3, capacity=3),
@@ -25,8 +35,9 @@ def configs(tier):
 def run(tier):
     t0 = time.time()
     known = load_known(PID)
-    jobs = [(run_b_job, ({'property': PID, 'scenario': S, 'params': p, 'known': known},
-                         3300 if tier == 'thorough' else 1500)) for p in configs(tier)]
+    jobs = [(run_b_job, ({'property': PID, 'scenario': c[0] if isinstance(c, tuple) else S,
+                          'params': c[1] if isinstance(c, tuple) else c, 'known': known},
+                         3300 if tier == 'thorough' else 1500)) for c in configs(tier)]
     results = run_jobs(jobs)
     return finish(
         PID, tier, 'model_checking', results, t0,
@@ -35,9 +46,19 @@ def run(tier):
                     '(`y.exc`, set_exception) and Server.call, with concurrent caller threads. Which request fails, at which site '
                     '(preprocess, call of stage s) is a symbolic input per request; every caller checks that it received exactly '
                     'its own outcome: the original exception type and args with a traceback that names the failing function, or '
-                    'the composed result — so a failure of one request never changes the outcome of another.',
+                    'the composed result — so a failure of one request never changes the outcome of another. Ensemble/switch '
+                    '(models/ensemble_scn.py): the real EnsembleServlet.start/_enqueue/_dequeue/stop and SwitchServlet._enqueue '
+                    'threads run between member servlets that follow the servlet contract; which member fails for which request, '
+                    'which member the switch selects and whether a request arrives already failed are symbolic; the driver checks '
+                    'exactly one outcome per request and the documented rule: fail_fast -> EnsembleError as soon as a member '
+                    'failed (entries collected so far intact), otherwise the list in member order with the failures in place, '
+                    'EnsembleError when all failed; upstream failures are short-circuited unchanged; the catalog is empty at the '
+                    'end; stop() ends all threads.',
         assumptions=['thread-backed servlets: the exception object travels by reference (the process hop = pickling is C15\'s subject)',
-                     'stub contracts of the primitives; servlet trees: plain and sequential'],
-        outside=['EnsembleServlet fail_fast / all-failed rules and SwitchServlet routing (not modelled in this round)',
-                 'batched calls ("exactly the members of that batch fail"): batching threads are not modelled in this round',
+                     'stub contracts of the primitives; servlet trees: plain and sequential; ensemble and switch over contract members',
+                     'the ensemble catalog (one mutable dict object shared by two threads) is modelled as a tracked dict plus one '
+                     'cell per partial result and counter (models/ensemble_scn.py: Catalog)'],
+        outside=['ensembles of more than 3 members / 2 requests; nested ensembles; ensemble members that are real workers '
+                 '(assume-guarantee: the member contract is what the ThreadServlet configurations establish)',
+                 'batched failures are C09\'s configurations ("exactly the members of that batch fail" is checked there)',
                  'process boundary: traceback as text after pickling (see C15)'])
